@@ -81,6 +81,25 @@ Section Tick.
   Qed.
 End Tick.
 
+(* The operations of one tick are independent: what the tick does for file f is determined by f's own entry, f's
+   suspension and f's latest status (and the daemon being alive) - not by which other DAGs are loaded, due,
+   running or being started in the same tick.  (scheduler.go run: one goroutine per due entry.) *)
+Theorem tick_independent : forall s s' m c,
+  NoDup (map fst (tbl s)) -> NoDup (map fst (tbl s')) ->
+  alive s = alive s' ->
+  lookup (call_file c) (tbl s) = lookup (call_file c) (tbl s') ->
+  mem (call_file c) (susp s) = mem (call_file c) (susp s') ->
+  status_of s (call_file c) = status_of s' (call_file c) ->
+  count c (tick_calls s m) = count c (tick_calls s' m).
+Proof.
+  intros s s' m c K K' Ha Hl Hs Hst.
+  assert (Hf : forall e, file_count s m (call_file c) e c = file_count s' m (call_file c) e c).
+  { intro e. unfold file_count. destruct c; cbn [call_file] in *; rewrite ?Hst; reflexivity. }
+  rewrite (tick_count s m c K), (tick_count s' m c K'), Ha, Hl, Hs.
+  destruct (alive s'); [|reflexivity]. destruct (lookup (call_file c) (tbl s')) as [e|]; [|reflexivity].
+  rewrite Hf. reflexivity.
+Qed.
+
 (* ---------------------------------------------------------------------------------------- *)
 (* association lists                                                                          *)
 (* ---------------------------------------------------------------------------------------- *)
